@@ -150,7 +150,9 @@ def detect_encoding(
 
 def read_xml_encoding(body: bytes) -> str | None:
     if body.startswith(b'<?xml'):
-        match = RE_ENCODING.search(body)
+        # only look inside the XML declaration itself
+        end = body.find(b'?>')
+        match = RE_ENCODING.search(body, 0, len(body) if end < 0 else end)
         if match is not None:
             return match.group('encoding').decode('ascii')
     return None
